@@ -309,6 +309,11 @@ func (eng *Engine) resolveContracts() error {
 				if lp == nil {
 					continue // package not loaded in this run
 				}
+				if fc.Extern && strings.Contains(err.Error(), "unknown package") {
+					// an assumed contract on a dependency the package no longer imports: there is no call
+					// it could apply to, and nothing is proved from it
+					continue
+				}
 				return err
 			}
 			if key == "" {
